@@ -624,6 +624,23 @@ def registration(ctx):
                    ('the previous entry is consulted' if (used or guarded) else 'the Option returned by HashMap::insert is discarded — the later definition silently replaces the earlier one'),
                    loc(ic[0]['span']))
         ctx.ob(['C14', 'C11'], 'R-EXPR', 'TR|keyed-by-own-path', okt, 'registry entries are keyed by the item\'s own path', loc(ta[0].span))
+        # every call of add registers the item (or fails loudly): no path returns normally without the insert
+        f_ = ta[0]
+        okall = False
+        if len(ic) == 1:
+            rets = f_.return_blocks()
+            okall = True
+            for rb in rets:
+                if not unreachable_without(f_, rb, {ic[0]['block']}):
+                    # a way round the insert is acceptable only if it ends in Err
+                    ks = set()
+                    for x in f_.exits():
+                        if not unreachable_without(f_, x['block'], {ic[0]['block']}):
+                            ks.add(x['kind'])
+                    if not ks or not ks <= {'err_own', 'err_prop'}:
+                        okall = False
+        ctx.ob(['C14', 'C09', 'C10'], 'R-DOM', 'TR|add-always-inserts', okall,
+               'TypeRegistry::add registers the item on every path (an item that is silently not registered makes the result depend on the order of additions); the only acceptable way round the insert is an Err', loc(f_.span))
     # Module::new: impls collected into a map keyed by type path
     mn = [f for f in P.fns.values() if f.id.endswith('module::Module::new')]
     if mn:
